@@ -648,7 +648,9 @@ fn predict(intent: &Intent, endian: RunTimeEndian, crossver: bool) -> Vec<String
                     }
                     Val::InfoSym(_) => "unencodable".to_string(),
                     Val::InfoSup(x) => format!("{:?}", AV::DebugInfoRefSup(gimli::DebugInfoOffset(*x))).replace(' ', ""),
-                    Val::LineProg => "lineprogram".to_string(),
+                    // dump.rs reports DW_AT_stmt_list only for programs with rows; the generated programs have none.
+                    // Presence of the attribute is checked by check_layout instead.
+                    Val::LineProg => continue,
                     Val::Loc(k) => {
                         let (base, pairs) = &u.locs[*k];
                         let mut s = String::from("locs:");
@@ -741,7 +743,8 @@ fn check_layout(intent: &Intent, d: &gimli::Dwarf<Rd>) -> Result<(), String> {
         let unit = d.unit(h).map_err(|e| format!("unit:{}", errname(&e)))?;
         let iu = intent.units.get(ui).ok_or("extra-unit")?;
         let order = iu.order(true);
-        // records: (offset, depth, null?, sibling value)
+        // records: (offset, depth, null?, sibling value); stmt: DW_AT_stmt_list present (non-null entries)
+        let mut stmt: Vec<bool> = Vec::new();
         let mut recs: Vec<(usize, isize, bool, Option<usize>)> = Vec::new();
         let mut raw = unit.entries_raw(None).map_err(|e| errname(&e))?;
         while !raw.is_empty() {
@@ -751,6 +754,7 @@ fn check_layout(intent: &Intent, d: &gimli::Dwarf<Rd>) -> Result<(), String> {
                 None => recs.push((off, depth, true, None)),
                 Some(a) => {
                     let mut sib = None;
+                    stmt.push(a.attributes().iter().any(|sp| sp.name() == gimli::DW_AT_stmt_list));
                     for spec in a.attributes() {
                         let attr = raw.read_attribute(*spec).map_err(|e| errname(&e))?;
                         if attr.name() == gimli::DW_AT_sibling {
@@ -775,6 +779,12 @@ fn check_layout(intent: &Intent, d: &gimli::Dwarf<Rd>) -> Result<(), String> {
             }
             if want_sib != ents[k].3.is_some() {
                 return Err("sibling:presence".into());
+            }
+            // DW_AT_stmt_list: on the root iff the line program is in use, elsewhere iff the script set it
+            let has = iu.entries[i].attrs.iter().any(|a| a.0 == 0x10);
+            let want_stmt = if i == 0 { iu.line_in_use() } else { has };
+            if want_stmt != stmt[k] {
+                return Err("stmt_list:presence".into());
             }
         }
         // every sibling attribute points just behind the null entry that closes the entry's children
